@@ -85,6 +85,17 @@ def check_vector(v):
                 A2 = _iv(a2)
                 cmp("get_boolean_mask[with empty interval]", v["mask"], outcome(lambda: [bool(x) for x in get_boolean_mask(A2, S).to_array().tolist()]), at=k, pos=p)
                 cmp("get_pileup[with empty interval]", v["pileup"], outcome(lambda: get_pileup(A2, S).to_array().tolist()), at=k, pos=p)
+        # the pile-up by the older sweep of arithmetics/bedgraph.py, and both pile-ups of the collection listed 130 and 40 000 times (PileupOfRepeat)
+        from bionumpy.arithmetics.bedgraph import get_pileup as bedgraph_pileup
+        if a:
+            cmp("bedgraph.get_pileup", v["pileup"], outcome(lambda: np.asarray(bedgraph_pileup(A, S)).tolist()))
+            if v.get("_all") or hash(key) % 5 == 0:
+                for m in (130, 40000):
+                    Am = _iv(a * m)
+                    want_m = [x * m for x in v["pileup"]]
+                    cmp("get_pileup[collection listed m times]", want_m, outcome(lambda: get_pileup(Am, S).to_array().tolist()), m=m)
+                    cmp("bedgraph.get_pileup[collection listed m times]", want_m, outcome(lambda: np.asarray(bedgraph_pileup(Am, S)).tolist()), m=m)
+                    cmp("Geometry.get_pileup[collection listed m times]", want_m, outcome(lambda: Geometry({"chr1": S}).get_pileup(Am).to_dict()["chr1"].tolist()), m=m)
         cmp("sort_intervals", v["sorted"], outcome(lambda: _rows(sort_intervals(A))))
         cmp("sort_intervals[StringEncoding]", v["sorted"], outcome(lambda: _rows(sort_intervals(_iv_strenc(a)))))
         g = Geometry({"chr1": S})
@@ -124,7 +135,7 @@ def check_vector(v):
             cmp("forbes", fn / fd, outcome(lambda: float(forbes(sizes, A, B))), a_disjoint=v["apre"])
         # three contigs: a and b on the first, a alone on the second, nothing on the third (the measures are sums over all contigs)
         g3 = v["genome3"]
-        sizes3 = {"chr1": S, "chr2": S, "chr3": S}
+        sizes3 = {"chr1": S, "chr2": S + 1, "chr3": S + 2}
         if a and v["b"] and (v.get("_all") or hash(key) % 3 == 0):
             from bionumpy.datatypes import Interval as _Iv
             A3 = _Iv(["chr1"] * len(a) + ["chr2"] * len(a), np.array([x["s"] for x in a] * 2, dtype=int), np.array([x["e"] for x in a] * 2, dtype=int))
@@ -133,6 +144,14 @@ def check_vector(v):
                 cmp("Geometry.jaccard[three contigs]", g3["jaccard"][0] / g3["jaccard"][1], outcome(lambda: float(Geometry(sizes3).jaccard(A3, B))), a_disjoint=v["apre"])
             if g3["forbes"][1] != 0:
                 cmp("forbes[three contigs]", g3["forbes"][0] / g3["forbes"][1], outcome(lambda: float(forbes(sizes3, A3, B))), a_disjoint=v["apre"])
+            # the same sets handed over as per-contig lookups (name -> table) whose keys come in another order than the contigs
+            def look(t):
+                names = t.chromosome.tolist()
+                return {nm: t[np.array([c == nm for c in names], dtype=bool)] if len(t) else t for nm in ("chr3", "chr1", "chr2")}
+            if g3["jaccard"][1] != 0:
+                cmp("jaccard[three contigs, lookups]", g3["jaccard"][0] / g3["jaccard"][1], outcome(lambda: float(jaccard(sizes3, look(A3), look(B)))), a_disjoint=v["apre"])
+            if g3["forbes"][1] != 0:
+                cmp("forbes[three contigs, lookups]", g3["forbes"][0] / g3["forbes"][1], outcome(lambda: float(forbes(sizes3, look(A3), look(B)))), a_disjoint=v["apre"])
         if v["apre"]:
             cmp("count_overlap", v["overlap"], outcome(lambda: int(count_overlap(A, B))))
             if a:
@@ -243,7 +262,7 @@ def run(ctx):
     quick = ctx.tier == "quick"
     consts = dict(S=4, NA=3, NB=2, LO=1, HI=2) if quick else dict(S=6, NA=3, NB=1, LO=1, HI=2)
     invs = ["SumIsLength", "MaskIsMergeMask", "MergeIdempotent", "MergeDisjoint", "SortIsPermutation",
-            "OverlapSymmetric", "ExtendInside", "EmptyCoversNothing", "Emit"]
+            "OverlapSymmetric", "ExtendInside", "EmptyCoversNothing", "PileupOfRepeat", "Emit"]
     res = ctx.tlc("MC_C08", spec="Spec", constants=consts, invariants=invs, properties=["PileupMonotone"],
                   coverage=True)
     ctx.require_actions(res, "MC_C08", ["AddA", "AddB"])
